@@ -1,6 +1,7 @@
 #!/bin/bash
 # apply a seeded change to /repo, run the given property checks (quick), revert. usage: tools_run_seeded.sh <seed dir> <Cxx> [Cyy...]
 seed=$1; shift
+cd /repo && [ -z "$(git status --short)" ] || { echo 'uncommitted changes in /repo: commit first'; exit 2; }
 cd /repo && git apply $seed/patch.diff || { echo "cannot apply $seed"; exit 2; }
 for p in "$@"; do
   out=$(cd /verif && ./check $p quick 2>&1); rc=$?
@@ -8,4 +9,4 @@ for p in "$@"; do
   echo "seed=$(basename $seed) check=$p exit=$rc violations=$nv"
   echo "$out" | grep '^VIOLATION' | head -5 | sed 's/^/    /' | cut -c1-260
 done
-cd /repo && git checkout -- . && git status --short | head -3
+cd /repo && git apply -R $seed/patch.diff && git status --short | head -3
